@@ -5,20 +5,25 @@
 //!
 //! * `prefix_dec <hex|->`                         `some <v> <codec> <mh> <len>` / `none`
 //! * `prefix_enc <v> <codec> <mh> <len>`          `<hex>`
-//! * `inbound <prefixhex|-> <data> [h=..]`        `ok <cidhex> <data>` / `dropped` (real `block_to_response`)
+//! * `inbound <prefixhex|-> <data> [h=..]`        `ok <cidhex> <data>` / `dropped` (the block alone in
+//!   a message handed to the real `Bitswap::on_message_received`: no event = dropped)
 //! * `message <prefixhex|->:<data>[:h] ...`       `event <cidhex>:<data> ...` / `noevent` (real
 //!   `Bitswap::on_message_received` on the prost-encoded message, observed on the user's handle)
-//! * `batches <v> <codec> <mh> <dlen> <sizes>`    real `send_response` over an in-memory yamux
-//!   substream; the frames that arrive at the far end are decoded with prost and reported
-//!   together with the plan computed by the real `extract_next_batch` / `blocks_message`.
+//! * `batches <v> <codec> <mh> <dlen> <sizes> [pres=<n>]`  real `send_response` over an in-memory
+//!   yamux substream with the codec of the real `Config` (size limit enforced by `send_framed`);
+//!   the response has `n` presence entries (`Have` iff `i % 3 == 0`, else `DontHave`) interleaved
+//!   with the blocks. Every frame that arrives at the far end is decoded with prost and reported as
+//!   `<encoded len>/<blocks rle>` resp. `<encoded len>/P<entries>:<haves>`, together with the
+//!   return value and the plan computed by the real `extract_next_batch` / `blocks_message` /
+//!   `presences_message`.
 //!
 //! `<data>` is `-` (empty), hex, or `<len>,<fill>`; it is echoed canonically (`<len>,<fill>` when
 //! all bytes are equal). `<sizes>` is a comma separated list of `<size>` or `<size>*<count>`.
 //! Arguments of the form `h=...` carry digests for the formal model and are ignored here.
 
 use super::{
-    block_to_response, blocks_message, config, extract_next_batch, schema, send_response, Bitswap,
-    BitswapEvent, Config, Prefix, ResponseType,
+    blocks_message, config, extract_next_batch, presences_message, schema, send_response, Bitswap,
+    BitswapEvent, BlockPresenceType, Config, Prefix, ResponseType,
 };
 use crate::{
     addresses::PublicAddresses,
@@ -31,7 +36,7 @@ use crate::{
     },
     types::SubstreamId,
     verif::{hex, peer, VerifBox},
-    BandwidthSink, PeerId,
+    BandwidthSink,
 };
 
 use cid::{multihash::Multihash, Cid, Version};
@@ -223,7 +228,8 @@ async fn run_send_response(entries: Vec<ResponseType>) -> (bool, Vec<Vec<u8>>) {
         got
     });
 
-    let codec = ProtocolCodec::UnsignedVarint(Some(config::MAX_MESSAGE_SIZE));
+    // the codec the protocol is really installed with (`Config::new`), limit included
+    let codec: ProtocolCodec = Config::new().0.codec;
     let mut substream = wrap(so, codec);
     let ok = send_response(&mut substream, entries).await.is_ok();
     let _ = substream.send_framed(bytes::Bytes::from_static(SENTINEL)).await;
@@ -272,7 +278,19 @@ fn version_of(v: &str) -> Option<Version> {
 }
 
 impl BitswapBox {
-    fn batches(&mut self, v: &str, codec: &str, mh: &str, dlen: &str, sizes: &str) -> Option<String> {
+    fn batches(
+        &mut self,
+        v: &str,
+        codec: &str,
+        mh: &str,
+        dlen: &str,
+        sizes: &str,
+        pres: &str,
+    ) -> Option<String> {
+        let pres: usize = pres.strip_prefix("pres=")?.parse().ok()?;
+        if pres > (1 << 18) {
+            return None;
+        }
         let version = version_of(v)?;
         let codec: u64 = codec.parse().ok()?;
         let mh: u64 = mh.parse().ok()?;
@@ -280,6 +298,7 @@ impl BitswapBox {
         let sizes = parse_sizes(sizes)?;
         let hash = Multihash::<64>::wrap(mh, &vec![0xabu8; dlen.min(65)]).ok()?;
         let cid = Cid::new(version, codec, hash).ok()?;
+        // (from here on `dlen <= 64`, else `wrap` failed)
 
         let blocks: Vec<(Cid, Vec<u8>)> =
             sizes.iter().enumerate().map(|(i, s)| (cid, vec![tag(i); *s])).collect();
@@ -303,9 +322,46 @@ impl BitswapBox {
             }
         }
 
+        // presence `i`: the blocks' CID parameters with `i` written into the digest, `Have` iff
+        // `i % 3 == 0`
+        let presences: Vec<(Cid, BlockPresenceType)> = (0..pres)
+            .map(|i| {
+                let mut digest = vec![0xabu8; dlen];
+                for (k, b) in digest.iter_mut().take(4).enumerate() {
+                    *b = (i >> (8 * k)) as u8;
+                }
+                let hash = Multihash::<64>::wrap(mh, &digest).expect("digest length checked above");
+                let cid = Cid::new(version, codec, hash).expect("cid parameters checked above");
+                (cid, if i % 3 == 0 { BlockPresenceType::Have } else { BlockPresenceType::DontHave })
+            })
+            .collect();
+        let pplan = match presences_message(presences.iter().cloned()) {
+            Some((m, count)) => format!("{count}:{}", m.len()),
+            None => "-".to_string(),
+        };
+        let sent_presences: Vec<(Vec<u8>, i32)> =
+            presences.iter().map(|(cid, ty)| (cid.to_bytes(), *ty as i32)).collect();
+
         let original: Vec<(usize, u8)> = blocks.iter().map(|b| (b.1.len(), b.1.first().copied().unwrap_or(0))).collect();
-        let entries =
-            blocks.into_iter().map(|(cid, block)| ResponseType::Block { cid, block }).collect();
+        // entries[2i] = presence i, entries[2i + 1] = block i until one kind runs out
+        let mut entries = Vec::with_capacity(blocks.len() + presences.len());
+        {
+            let mut ps = presences.into_iter();
+            let mut bs = blocks.into_iter();
+            loop {
+                let p = ps.next();
+                let b = bs.next();
+                if p.is_none() && b.is_none() {
+                    break;
+                }
+                if let Some((cid, presence)) = p {
+                    entries.push(ResponseType::Presence { cid, presence });
+                }
+                if let Some((cid, block)) = b {
+                    entries.push(ResponseType::Block { cid, block });
+                }
+            }
+        }
         let (ok, frames) = self.rt.block_on(run_send_response(entries));
 
         let mut msgs = Vec::new();
@@ -318,6 +374,7 @@ impl BitswapBox {
         }
         .to_bytes();
         let mut intact = true;
+        let mut got_presences: Vec<(Vec<u8>, i32)> = Vec::new();
         for f in frames {
             match schema::bitswap::Message::decode(&f[..]) {
                 Ok(m) => {
@@ -327,11 +384,29 @@ impl BitswapBox {
                         intact &= b.data.iter().all(|x| *x == t) && b.prefix == expected_prefix;
                         received.push((b.data.len(), t));
                     }
-                    msgs.push(format!("{}/{}", f.len(), rle(&sizes)));
+                    let desc = if m.block_presences.is_empty() {
+                        rle(&sizes)
+                    } else {
+                        let haves = m
+                            .block_presences
+                            .iter()
+                            .filter(|p| p.r#type == BlockPresenceType::Have as i32)
+                            .count();
+                        let p = format!("P{}:{}", m.block_presences.len(), haves);
+                        if sizes.is_empty() {
+                            p
+                        } else {
+                            format!("{p};{}", rle(&sizes))
+                        }
+                    };
+                    got_presences.extend(m.block_presences.into_iter().map(|p| (p.cid, p.r#type)));
+                    msgs.push(format!("{}/{}", f.len(), desc));
                 }
                 Err(_) => msgs.push(format!("{}/undecodable", f.len())),
             }
         }
+        // the presences that arrived are none at all or exactly the submitted ones, in order
+        let pintact = got_presences.is_empty() || got_presences == sent_presences;
         // neutral order observation: the received (size, tag) sequence is a subsequence of the
         // submitted one
         let mut j = 0;
@@ -347,12 +422,14 @@ impl BitswapBox {
             j += 1;
         }
         Some(format!(
-            "ret={} msgs=[{}] plan=[{}] sub={} intact={}",
+            "ret={} msgs=[{}] plan=[{}] pplan=[{}] sub={} intact={} pintact={}",
             if ok { "ok" } else { "err" },
             msgs.join(" "),
             plan.join(" "),
+            pplan,
             if sub { "yes" } else { "no" },
             if intact { "yes" } else { "no" },
+            if pintact { "yes" } else { "no" },
         ))
     }
 
@@ -441,18 +518,30 @@ impl VerifBox for BitswapBox {
                 )
             }
             ["inbound", p, d] => {
-                let (Some(prefix), Some(data)) = (unhex_opt(p), parse_data(d)) else { return bad() };
-                let from: PeerId = peer(2);
-                match block_to_response(&from, schema::bitswap::Block { prefix, data }) {
-                    Some(ResponseType::Block { cid, block }) =>
-                        format!("ok {} {}", hex(&cid.to_bytes()), show_data(&block)),
-                    Some(ResponseType::Presence { .. }) => "presence".into(),
-                    None => "dropped".into(),
+                if unhex_opt(p).is_none() || parse_data(d).is_none() {
+                    return bad();
+                }
+                // The block alone in a message through the real inbound path. (The per-block
+                // function is private and has been refactored away before; the message handler
+                // is what the user observes.)
+                let item = format!("{p}:{d}");
+                match self.message(&[item.as_str()]) {
+                    None => bad(),
+                    Some(o) if o == "noevent" => "dropped".into(),
+                    Some(o) => match o.strip_prefix("event ").map(|r| r.split(' ').collect::<Vec<_>>()) {
+                        Some(blocks) if blocks.len() == 1 && blocks[0].contains(':') => {
+                            let (cid, data) = blocks[0].split_once(':').expect("checked");
+                            format!("ok {cid} {data}")
+                        }
+                        _ => format!("unexpected {o}"),
+                    },
                 }
             }
             ["message", items @ ..] => self.message(items).unwrap_or_else(bad),
             ["batches", v, codec, mh, dlen, sizes] =>
-                self.batches(v, codec, mh, dlen, sizes).unwrap_or_else(bad),
+                self.batches(v, codec, mh, dlen, sizes, "pres=0").unwrap_or_else(bad),
+            ["batches", v, codec, mh, dlen, sizes, pres] =>
+                self.batches(v, codec, mh, dlen, sizes, pres).unwrap_or_else(bad),
             _ => bad(),
         }
     }
